@@ -6,7 +6,8 @@
 // Line protocol: one scenario per input line, run one after the other, one observation line each.
 //
 //	# ...                                                  -> skip
-//	mux scenario <transport> <seed> <stopmid> <clients>    -> obs order=<d:s,d:s,...|-> bad=<n> nconn=<n> nconnstop=<n>
+//	mux scenario <transport> <seed> <stopmid> <clients> [shared=<r>]
+//	                                                        -> obs order=<d:s,d:s,...|-> bad=<n> nconn=<n> nconnstop=<n>
 //	                                                              stopms=<n> afterstop=<n> g0=<n> g1=<n> grem=<n> rebind=<0|1>
 //	                                                              ownsock=<0|1> race=<0|1> w=<n,n,...> pc=<codes> del=<n> overlap=<n>
 //	                                                              nconnmax=<n> raceon=<0|1> to=<flags|-> [## free text]
@@ -23,11 +24,22 @@
 //	                h  writes the first half of one more message and stays connected until the collector has been stopped
 //	                s  (tls) connects over TCP, sends 3 bytes of a ClientHello and stalls until the collector has been
 //	                   stopped; all other clients connect after it (elsewhere: like i)
+//	shared=<r>  (r >= 1) ALL clients export in observation domain 1 with template id 256 - they share ONE stored
+//	            template in the collector - and every client sends the template set again as every r-th of its
+//	            messages (numbers 0, r, 2r, ...: an ordinary message in the client's numbering), so that template
+//	            (re-)definitions by one exporter run concurrently with data-record decoding by the others. The
+//	            clients stay distinguishable: the IPFIX sequence-number field carries (client number i+1) << 16 |
+//	            message number (the collector does not interpret it), the data record carries (i+1, number) in its
+//	            two fields; deliveries are attributed by that client number, not by the header's domain, and are
+//	            reported as (i+1):number exactly as in the other scenarios. n <= 65535.
 //
 // Observation:
 //
 //	order      (domain:sequence) of every message received on GetMsgChan(), in the order received
-//	bad        delivered messages whose payload does not match their header
+//	           (shared: (client number:message number), both taken from the sequence-number field)
+//	bad        delivered messages whose payload does not match their header (shared: also a domain other than 1,
+//	           a record that does not carry the client and message number of the header, a template set where a
+//	           data set was sent or vice versa)
 //	nconn      GetNumConnToCollector() after all closing clients have disconnected and everything they wrote has
 //	           been delivered (TCP/TLS: polled up to 2 s for the number of clients that stay connected)
 //	nconnstop  GetNumConnToCollector() right after Stop() returned
@@ -175,47 +187,79 @@ func mintAll() {
 
 // ---- IPFIX encoder ----------------------------------------------------------------------------
 
-// message seq 0 of a domain: template 256 = (sourceIPv4Address, destinationIPv4Address);
-// message seq k > 0: one data record (domain, k)
-func buildMsg(domain, seq uint32) []byte {
-	if seq == 0 {
-		b := make([]byte, 32)
-		binary.BigEndian.PutUint16(b[0:], 10)
-		binary.BigEndian.PutUint16(b[2:], 32)
-		binary.BigEndian.PutUint32(b[4:], uint32(time.Now().Unix()))
-		binary.BigEndian.PutUint32(b[8:], 0)
-		binary.BigEndian.PutUint32(b[12:], domain)
-		binary.BigEndian.PutUint16(b[16:], 2)
-		binary.BigEndian.PutUint16(b[18:], 16)
-		binary.BigEndian.PutUint16(b[20:], 256)
-		binary.BigEndian.PutUint16(b[22:], 2)
-		binary.BigEndian.PutUint16(b[24:], 8)
-		binary.BigEndian.PutUint16(b[26:], 4)
-		binary.BigEndian.PutUint16(b[28:], 12)
-		binary.BigEndian.PutUint16(b[30:], 4)
-		return b
+// a template message: template 256 = (sourceIPv4Address, destinationIPv4Address);
+// a data message: one data record (a, b) of that template.
+// seqField is what goes into the header's sequence-number field.
+func buildMsg(domain, seqField uint32, template bool, a, b uint32) []byte {
+	if template {
+		m := make([]byte, 32)
+		binary.BigEndian.PutUint16(m[0:], 10)
+		binary.BigEndian.PutUint16(m[2:], 32)
+		binary.BigEndian.PutUint32(m[4:], uint32(time.Now().Unix()))
+		binary.BigEndian.PutUint32(m[8:], seqField)
+		binary.BigEndian.PutUint32(m[12:], domain)
+		binary.BigEndian.PutUint16(m[16:], 2)
+		binary.BigEndian.PutUint16(m[18:], 16)
+		binary.BigEndian.PutUint16(m[20:], 256)
+		binary.BigEndian.PutUint16(m[22:], 2)
+		binary.BigEndian.PutUint16(m[24:], 8)
+		binary.BigEndian.PutUint16(m[26:], 4)
+		binary.BigEndian.PutUint16(m[28:], 12)
+		binary.BigEndian.PutUint16(m[30:], 4)
+		return m
 	}
-	b := make([]byte, 28)
-	binary.BigEndian.PutUint16(b[0:], 10)
-	binary.BigEndian.PutUint16(b[2:], 28)
-	binary.BigEndian.PutUint32(b[4:], uint32(time.Now().Unix()))
-	binary.BigEndian.PutUint32(b[8:], seq)
-	binary.BigEndian.PutUint32(b[12:], domain)
-	binary.BigEndian.PutUint16(b[16:], 256)
-	binary.BigEndian.PutUint16(b[18:], 12)
-	binary.BigEndian.PutUint32(b[20:], domain)
-	binary.BigEndian.PutUint32(b[24:], seq)
-	return b
+	m := make([]byte, 28)
+	binary.BigEndian.PutUint16(m[0:], 10)
+	binary.BigEndian.PutUint16(m[2:], 28)
+	binary.BigEndian.PutUint32(m[4:], uint32(time.Now().Unix()))
+	binary.BigEndian.PutUint32(m[8:], seqField)
+	binary.BigEndian.PutUint32(m[12:], domain)
+	binary.BigEndian.PutUint16(m[16:], 256)
+	binary.BigEndian.PutUint16(m[18:], 12)
+	binary.BigEndian.PutUint32(m[20:], a)
+	binary.BigEndian.PutUint32(m[24:], b)
+	return m
 }
 
-// payloadOK: the decoded message carries what buildMsg put in
-func payloadOK(m *entities.Message) bool {
+const sharedDomain = 1
+
+// clientMsg is message number k of client i (0-based) of the scenario.
+//
+//	own domains: domain i+1, sequence field k, k = 0 is the template, the others carry (domain, k)
+//	shared:      domain 1, sequence field (i+1)<<16 | k, every r-th message is the template, the others carry (i+1, k)
+func (sc *scenario) clientMsg(i int, k uint32) []byte {
+	if sc.shared > 0 {
+		id := uint32(i + 1)
+		return buildMsg(sharedDomain, id<<16|k, k%uint32(sc.shared) == 0, id, k)
+	}
+	d := uint32(i + 1)
+	return buildMsg(d, k, k == 0, d, k)
+}
+
+// identify: which client's message, and which number (what `order` reports)
+func (sc *scenario) identify(m *entities.Message) delivery {
+	if sc.shared > 0 {
+		return delivery{m.GetSequenceNum() >> 16, m.GetSequenceNum() & 0xffff}
+	}
+	return delivery{m.GetObsDomainID(), m.GetSequenceNum()}
+}
+
+// payloadOK: the decoded message carries what clientMsg put in
+func (sc *scenario) payloadOK(m *entities.Message) bool {
 	set := m.GetSet()
 	if set == nil {
 		return false
 	}
+	d := sc.identify(m)
+	isTemplate := d.seq == 0
+	if sc.shared > 0 {
+		if m.GetObsDomainID() != sharedDomain {
+			return false
+		}
+		isTemplate = d.seq%uint32(sc.shared) == 0
+	}
 	recs := set.GetRecords()
-	if m.GetSequenceNum() == 0 {
+	if isTemplate {
 		return set.GetSetType() == entities.Template && len(recs) == 1 && recs[0].GetTemplateID() == 256
 	}
 	if set.GetSetType() != entities.Data || len(recs) != 1 {
@@ -234,7 +278,7 @@ func payloadOK(m *entities.Message) bool {
 	}
 	a, ok1 := ip4(els[0])
 	b, ok2 := ip4(els[1])
-	return ok1 && ok2 && a == m.GetObsDomainID() && b == m.GetSequenceNum()
+	return ok1 && ok2 && a == d.domain && b == d.seq
 }
 
 // ---- scenario ------------------------------------------------------------------------------------
@@ -251,10 +295,19 @@ type scenario struct {
 	seed      int64
 	stopMid   int // -1 = none
 	clients   []clientSpec
+	shared    int // 0 = every client has its own observation domain; r > 0 = one domain, template re-sent every r-th message
 }
 
 func parseScenario(f []string) (scenario, bool) {
 	var sc scenario
+	if len(f) == 5 && strings.HasPrefix(f[4], "shared=") {
+		r, err := strconv.Atoi(strings.TrimPrefix(f[4], "shared="))
+		if err != nil || r < 1 || r > 65535 {
+			return sc, false
+		}
+		sc.shared = r
+		f = f[:4]
+	}
 	if len(f) != 4 {
 		return sc, false
 	}
@@ -284,6 +337,9 @@ func parseScenario(f []string) (scenario, bool) {
 		if err != nil || n < 0 || n > 100000 || !strings.ContainsRune("caihs", rune(b)) {
 			return sc, false
 		}
+		if sc.shared > 0 && n > 65535 {
+			return sc, false
+		}
 		sc.clients = append(sc.clients, clientSpec{n, b})
 	}
 	if len(sc.clients) == 0 || len(sc.clients) > 256 {
@@ -299,7 +355,7 @@ type clientResult struct {
 	start, end time.Time
 }
 
-type delivery struct{ domain, seq uint32 }
+type delivery struct{ domain, seq uint32 } // domain = connection: the client's own domain, or its number in shared scenarios
 
 type run struct {
 	sc          scenario
@@ -337,8 +393,8 @@ func (r *run) consumer(stop <-chan struct{}, done chan<- struct{}) {
 			if after {
 				r.afterStop++
 			}
-			r.log = append(r.log, delivery{m.GetObsDomainID(), m.GetSequenceNum()})
-			if !payloadOK(m) {
+			r.log = append(r.log, r.sc.identify(m))
+			if !r.sc.payloadOK(m) {
 				r.bad++
 			}
 			r.lastDeliv.Store(time.Now().UnixNano())
@@ -417,7 +473,6 @@ func (r *run) client(i int, res *clientResult, release <-chan struct{}) {
 		}
 		return
 	}
-	domain := uint32(i + 1)
 	udp := r.sc.transport == "udp"
 	pause := time.Duration(len(r.sc.clients)) * 400 * time.Microsecond
 	write := func(b []byte) error {
@@ -435,7 +490,7 @@ func (r *run) client(i int, res *clientResult, release <-chan struct{}) {
 		return err
 	}
 	for k := 0; k < spec.n; k++ {
-		if err := write(buildMsg(domain, uint32(k))); err != nil {
+		if err := write(r.sc.clientMsg(i, uint32(k))); err != nil {
 			res.writeErr = true
 			break
 		}
@@ -446,7 +501,7 @@ func (r *run) client(i int, res *clientResult, release <-chan struct{}) {
 		}
 	}
 	if (spec.beh == 'a' || spec.beh == 'h') && !res.writeErr {
-		b := buildMsg(domain, uint32(spec.n))
+		b := r.sc.clientMsg(i, uint32(spec.n))
 		conn.SetWriteDeadline(time.Now().Add(writeDL))
 		conn.Write(b[:len(b)/2])
 	}
